@@ -286,7 +286,8 @@ def run(prop, tier, seed):
         # (3b) engine C: gated concurrent schedules (client requests racing each other and the sweepers)
         nc = 200 if quick else 4000
         conc = [gen_conc.gen_conc(seed, i) for i in range(nc)]
-        conc += [gen_conc.gen_conc_free(seed, i) for i in range(40 if quick else 600)]     # ungated bursts: first requests of databases / keys
+        conc += [gen_conc.gen_conc_free(seed, i) for i in range(40 if quick else 600)]
+        conc += [gen_conc.gen_conc_recycle(seed, i) for i in range(120 if quick else 1500)]   # a request parked while its key manager is freed and reused     # ungated bursts: first requests of databases / keys
         # schedules generated by TLC from the fine-atomicity spec (one step = one critical section)
         with open(os.path.join(VERIF, "spec", "sim", "LockEngineFine_sim.cfg")) as fh:
             fsimcfg = fh.read()
